@@ -44,6 +44,27 @@ def info():
     return _INFO or regen()
 
 
+class phase:
+    """with phase(ctx, "name"): ...   -- wall and CPU seconds (this process + children) into the evidence notes"""
+
+    def __init__(self, ctx, name):
+        self.ctx, self.name = ctx, name
+
+    def __enter__(self):
+        import resource
+        import time
+        self.t = time.time()
+        self.c = sum(resource.getrusage(w).ru_utime + resource.getrusage(w).ru_stime
+                     for w in (resource.RUSAGE_SELF, resource.RUSAGE_CHILDREN))
+
+    def __exit__(self, *a):
+        import resource
+        import time
+        c = sum(resource.getrusage(w).ru_utime + resource.getrusage(w).ru_stime
+                for w in (resource.RUSAGE_SELF, resource.RUSAGE_CHILDREN))
+        self.ctx.notes.setdefault("phase_seconds_wall_cpu", {})[self.name] = [round(time.time() - self.t, 1), round(c - self.c, 1)]
+
+
 # ------------------------------------------------------------------ the traced twin
 class Recorder:
     def __init__(self):
